@@ -48,6 +48,11 @@ class Model(LogicType.Model[Meta.values]):
 
     def finish(self):
         self._check_not_finished()
+        # Enforce the access relation first, since it can add a world, which
+        # needs identity and existence like any other.
+        for w in tuple(self.frames):
+            self.R[w]
+        self.R.enforce()
         self._complete_frames()
         for w, frame in self.frames.items():
             for pred in deque(frame.predicates):
